@@ -44,19 +44,19 @@ RUN_ACTIONS = ["Assign", "Delete", "Read", "ClosureRead", "Walrus", "CondRead", 
 
 TIERS = {
     "quick": {
-        "gen": [("DefAssign_gflow", 70, "1 variable, <= 4 statements, <= 1 compound of {if, while, for}, leaves asg/del/read/mr/ret/brk/cnt"),
-                ("DefAssign_gtry", 90, "1 variable, <= 4 statements, 1 try (handlers (), (V), (*), as-name, finally), leaves asg/del/read/mr"),
-                ("DefAssign_gmisc", 90, "2 variables, <= 3 statements, <= 1 compound of {match, with, if}, leaves asg/read/cread/wal/cex/comp/ret + dead assignments")],
-        "sim": ("DefAssign_gsim", 40, 14, 2500, 70, "random growth: 3 variables, <= 10 statements, nesting <= 3, <= 4 compound statements, all kinds"),
+        "gen": [("DefAssign_gflow", 50, "1 variable, <= 4 statements, <= 1 compound of {if, while, for}, leaves asg/del/read/mr/raise/ret/brk/cnt"),
+                ("DefAssign_gtry", 60, "1 variable, <= 4 statements, 1 try (handlers (), (V), (*), as-name, finally), leaves asg/del/read/mr"),
+                ("DefAssign_gmisc", 60, "2 variables, <= 3 statements, <= 1 compound of {match, with, if}, leaves asg/read/cread/wal/cex/comp/ret + dead assignments")],
+        "sim": ("DefAssign_gsim", 120, 14, 1500, 50, "random growth: 3 variables, <= 10 statements, nesting <= 3, <= 4 compound statements, all kinds"),
         "run": "DefAssign_run", "per_module": 45,
     },
     "thorough": {
-        "gen": [("DefAssign_gflow", 400, "1 variable, <= 4 statements, <= 1 compound of {if, while, for}, leaves asg/del/read/mr/ret/brk/cnt"),
-                ("DefAssign_gtry", 500, "1 variable, <= 4 statements, 1 try (handlers (), (V), (*), as-name, finally), leaves asg/del/read/mr"),
-                ("DefAssign_gmisc", 500, "2 variables, <= 3 statements, <= 1 compound of {match, with, if}, leaves asg/read/cread/wal/cex/comp/ret + dead assignments"),
-                ("DefAssign_gtry2", 500, "1 variable, <= 5 statements, 2 compound statements of {try, while, if} nested <= 2, leaves asg/del/read/mr/brk")],
-        "sim": ("DefAssign_gsim", 120, 16, 20000, 600, "random growth: 3 variables, <= 10 statements, nesting <= 3, <= 4 compound statements, all kinds"),
-        "run": "DefAssign_runt", "per_module": 60,
+        "gen": [("DefAssign_gflow", 220, "1 variable, <= 4 statements, <= 1 compound of {if, while, for}, leaves asg/del/read/mr/raise/ret/brk/cnt"),
+                ("DefAssign_gtry", 220, "1 variable, <= 4 statements, 1 try (handlers (), (V), (*), as-name, finally), leaves asg/del/read/mr"),
+                ("DefAssign_gmisc", 220, "2 variables, <= 3 statements, <= 1 compound of {match, with, if}, leaves asg/read/cread/wal/cex/comp/ret + dead assignments"),
+                ("DefAssign_gtry5", 260, "1 variable, <= 5 statements, 1 try (bare except, optional finally), leaves asg/del/read/mr")],
+        "sim": ("DefAssign_gsim", 240, 16, 6000, 160, "random growth: 3 variables, <= 10 statements, nesting <= 3, <= 4 compound statements, all kinds"),
+        "run": "DefAssign_runt", "per_module": 50,
     },
 }
 
@@ -70,7 +70,7 @@ def stratified(progs, n, rng):
     """pick n programs, round-robin over feature signatures so that rare shapes are present"""
     groups = collections.defaultdict(list)
     for p in progs:
-        groups["+".join(sorted(ld.kinds_of(p)))].append(p)
+        groups[ld.shape_key(p)].append(p)
     keys = sorted(groups)
     rng.shuffle(keys)
     for k in keys:
@@ -145,7 +145,8 @@ def classify(rec, cobs, info, cfg):
         if e[1] >= 0:
             seen += 1
     fails = [e for e in seg if e[1] < 0]
-    nxt = sreal[k] if k < len(sreal) else None
+    full_real = [e for e in slog if e[1] >= 0]
+    nxt = full_real[k] if k < len(full_real) else None
     crashed = isinstance(cout, str) and (cout.startswith("CRASH") or cout == "TIMEOUT")
     resp = None
     if crashed:
@@ -157,11 +158,11 @@ def classify(rec, cobs, info, cfg):
         if same:
             obs, resp = "value_instead_of_unbound", same[0]
         elif nxt is not None and nxt[0] == ce[0]:
-            obs, resp = "wrong_value", nxt + [0]
+            obs, resp = "wrong_value", nxt
         else:
-            obs, resp = "diverged", (fails[0] if fails else (nxt + [0] if nxt else None))
+            obs, resp = "diverged", (fails[0] if fails else nxt)
     elif k < len(sreal):
-        obs, resp = ("spurious_" + str(cout)), nxt + [0]
+        obs, resp = ("spurious_" + str(cout)), nxt
     else:
         obs, resp = "outcome", (fails[-1] if fails else None)
     stmts, chain = info["stmts"], info["chain"]
@@ -178,9 +179,10 @@ def classify(rec, cobs, info, cfg):
     vname = ld.VNAMES[var]
     ty = (info["types"].get(cfg) or {}).get(vname) or {}
     d.update({"ev": s["t"], "spec": "unbound" if resp[1] < 0 else "value",
-              "read_maybe_unbound": bool(s["mn"]), "is_null_fact": bool(s["isn"]),
+              "read_maybe_unbound": resp[3] >= 1, "is_null_fact": resp[3] == 2,
               "inferred_ctype": ty.get("ctype", "?").strip(), "c_numeric": bool(ty.get("numeric", False)),
               "closure_var": var in info["cells"],
+              "match_with_default": any(x["t"] == "match" and x["v"] == var and x["d"] for x in ld.walk(info["prog"])),
               "binders": "+".join(sorted(ld.binders(info["prog"], var))) or "none"})
     if resp[1] < 0:
         why = {-1: "never_bound", -2: "del", -3: "except_as_cleanup"}[resp[1]]
@@ -212,15 +214,19 @@ def tlc_gen(cfg, workers):
 
 def err_lines(errors, modname):
     out = []
-    for m in re.finditer(r"%s\.py:(\d+):(\d+): (.*)" % re.escape(modname), errors):
-        out.append((int(m.group(1)), int(m.group(2)), m.group(3).strip()))
+    for line in errors.splitlines():
+        if line.startswith("warning:") or line.startswith("note:"):
+            continue
+        m = re.match(r"\S*%s\.py:(\d+):(\d+): (.*)" % re.escape(modname), line)
+        if m:
+            out.append((int(m.group(1)), int(m.group(2)), m.group(3).strip()))
     return sorted(set(out))
 
 
 def run(tier, seed, only=None):
     t0 = time.time()
     rng = random.Random(seed)
-    rep = core.Reporter(PROP)
+    rep = core.Reporter(PROP) if only is None else ReplayReporter()
     T = TIERS[tier]
     workers = int(os.environ.get("VERIF_TLC_WORKERS", "0")) or 8
     jobs = int(os.environ.get("VERIF_JOBS", "0")) or 8
@@ -234,7 +240,8 @@ def run(tier, seed, only=None):
         with concurrent.futures.ThreadPoolExecutor(max_workers=3) as ex:
             futs = [(cfg, n, what, ex.submit(tlc_gen, cfg, max(2, workers // 2))) for cfg, n, what in T["gen"]]
             simcfg, simsec, simdepth, simmax, simn, simwhat = T["sim"]
-            sim = core.tlc_simulate("DefAssign", simcfg, seconds=simsec, depth=simdepth, workers=2, seed=seed + 1, max_records=simmax)
+            # one worker + a record cap that is reached well before the time budget: the same seed gives the same programs
+            sim = core.tlc_simulate("DefAssign", simcfg, seconds=simsec, depth=simdepth, workers=1, seed=seed + 1, max_records=simmax)
             gens = [(cfg, n, what, f.result()) for cfg, n, what, f in futs]
         if not sim.ok:
             sys.stderr.write(sim.out[-3000:])
@@ -283,7 +290,13 @@ def run(tier, seed, only=None):
     wd = core.subdir("c21")
     per = T["per_module"]
     pids = sorted(progs)
-    modules = [pids[i:i + per] for i in range(0, len(pids), per)]
+    # programs with statements after a return/break/continue/raise go into small modules that are first compiled
+    # Cython-only: rejected programs (compile errors in lenient mode) have to be taken out before the real build
+    risky = [p for p in pids if has_dead_code(progs[p]["prog"])]
+    plain = [p for p in pids if p not in set(risky)]
+    modules = [plain[i:i + per] for i in range(0, len(plain), per)]
+    n_plain_modules = len(modules)
+    modules += [risky[i:i + 12] for i in range(0, len(risky), 12)]
     rt_files = {ld.RT_NAME + ".py": ld.RT_SOURCE}
 
     def make_module(mi, members):
@@ -294,7 +307,7 @@ def run(tier, seed, only=None):
     mods = {}
     for mi, members in enumerate(modules):
         text, first, rend = make_module(mi, members)
-        mods[mi] = {"members": list(members), "text": text, "first": first, "rend": rend}
+        mods[mi] = {"members": list(members), "text": text, "first": first, "rend": rend, "precheck": mi >= n_plain_modules}
 
     def func_of_line(mod, line):
         best = None
@@ -306,6 +319,10 @@ def run(tier, seed, only=None):
     def build_round(members_by_mod, tag):
         specs = []
         for mi, mod in members_by_mod.items():
+            if mod.get("precheck"):      # cheap Cython-only pass for modules that are likely to contain rejected programs
+                specs.append(core.BuildSpec("c21%s_m%d_pre" % (tag, mi), mod["text"], kind="py",
+                                            options={"global_options": LENIENT, "extra_files": rt_files}, cython_only=True))
+                continue
             for cname, directives in CONFIGS:
                 specs.append(core.BuildSpec("c21%s_m%d_%s" % (tag, mi, cname), mod["text"], kind="py", directives=directives,
                                             options={"global_options": LENIENT, "extra_files": rt_files}, facts="defassign"))
@@ -320,14 +337,16 @@ def run(tier, seed, only=None):
     while todo:
         tag = "r%d" % rnd
         bs = build_round(todo, tag)
-        for mi in todo:
-            for suffix in [c for c, _ in CONFIGS] + ["dflt"]:
-                builds["c21a_m%d_%s" % (mi, suffix)] = bs["c21%s_m%d_%s" % (tag, mi, suffix)]
         nxt = {}
         for mi, mod in todo.items():
             bad = set()
-            for cname, _ in CONFIGS:
-                b = builds["c21a_m%d_%s" % (mi, cname)]
+            if mod.get("precheck"):
+                check = [("safe", bs["c21%s_m%d_pre" % (tag, mi)])]
+            else:
+                for suffix in [c for c, _ in CONFIGS] + ["dflt"]:
+                    builds["c21a_m%d_%s" % (mi, suffix)] = bs["c21%s_m%d_%s" % (tag, mi, suffix)]
+                check = [(cname, builds["c21a_m%d_%s" % (mi, cname)]) for cname, _ in CONFIGS]
+            for cname, b in check:
                 if b.ok:
                     continue
                 if b.stage != "cython":
@@ -342,12 +361,17 @@ def run(tier, seed, only=None):
             if bad:
                 keep = [p for p in mod["members"] if p not in bad]
                 text, first, rend = make_module(mi, keep)
-                mods[mi] = nxt[mi] = {"members": keep, "text": text, "first": first, "rend": rend}
-        todo = nxt
-        n_rebuilt += len(nxt)
+                mods[mi] = nxt[mi] = {"members": keep, "text": text, "first": first, "rend": rend, "precheck": mod.get("precheck")}
+                n_rebuilt += 1
+            elif mod.get("precheck"):
+                mod["precheck"] = False
+                nxt[mi] = mod
+        todo = {mi: mod for mi, mod in nxt.items() if mod["members"]}
+        for mi in [mi for mi, mod in nxt.items() if not mod["members"]]:
+            del mods[mi]
         rnd += 1
-        if rnd > 8:
-            core.die("lenient-mode compile errors do not converge")
+        if rnd > 12:
+            core.die("lenient-mode compile errors do not converge: %s" % sorted(rejected.items())[-5:])
     timing["build"] = time.time() - t0
     sys.stderr.write("c21: build done %.0fs\n" % timing["build"])
     for pid, errs in sorted(rejected.items()):
@@ -368,10 +392,6 @@ def run(tier, seed, only=None):
         gen_by_pos = collections.defaultdict(list)
         for f in (base.facts or {}).get("gen", []):
             gen_by_pos[(f["line"], f["name"])].append(f)
-        cf_by_pos = collections.defaultdict(list)
-        for f in (base.facts or {}).get("cf", []):
-            if f["kind"] in ("ref", "del"):
-                cf_by_pos[(f["line"], f["name"])].append(f)
         if (base.facts or {}).get("errors"):
             core.die("fact exporter errors: %s" % base.facts["errors"][:3])
         for pid in mod["members"]:
@@ -381,16 +401,21 @@ def run(tier, seed, only=None):
             r = mod["rend"][fname]
             for sid, (off, vname) in r.use_line.items():
                 s = info["stmts"][sid]
-                fs = gen_by_pos.get((l0 + off, vname)) or cf_by_pos.get((l0 + off, vname))
+                fs = gen_by_pos.get((l0 + off, vname))
                 if not fs:
                     fact_stats["uses_without_fact(unreachable for the compiler)"] += 1
-                    s["mn"], s["isn"] = True, False
                     continue
                 fact_stats["uses_with_fact"] += 1
-                s["mn"] = any(f["mn"] for f in fs)
-                s["isn"] = all(f["isn"] for f in fs)
-                if len({(f["mn"], f["isn"]) for f in fs}) > 1:
-                    fact_stats["uses_with_conflicting_facts"] += 1
+                fx = {}
+                for f in fs:          # one NameNode per copy of the enclosing finally blocks
+                    code = 2 if f["isn"] else (1 if f["mn"] else 0)
+                    if f["ctx"] in fx and fx[f["ctx"]] != code:
+                        fact_stats["uses_with_conflicting_facts_in_one_context"] += 1
+                        code = min(code, fx[f["ctx"]])
+                    fx[f["ctx"]] = code
+                if len(fx) > 1:
+                    fact_stats["uses_compiled_in_several_finally_copies"] += 1
+                s["fx"] = fx
             for cname, b in bs.items():
                 for key, tys in ((b.facts or {}).get("types") or {}).items():
                     if key.split("@")[0] == fname:
@@ -409,7 +434,7 @@ def run(tier, seed, only=None):
     progfile = os.path.join(wd, "progs.ndjson")
 
     def strip(blk):
-        return [dict({k: s[k] for k in ("t", "id", "v", "r", "c", "g", "d", "mn", "isn")},
+        return [dict({k: s[k] for k in ("t", "id", "v", "r", "c", "g", "d")}, fx=s.get("fx") or {"c": 1},
                      a=strip(s["a"]), b=strip(s["b"]), f=strip(s["f"]),
                      hs=[{"c": h["c"], "v": h["v"], "a": strip(h["a"])} for h in s["hs"]]) for s in blk]
     allp = sorted(progs)            # rejected programs are explored too (expected behaviour of CPython, drift check)
@@ -497,14 +522,14 @@ def run(tier, seed, only=None):
     # fact verdicts decided by TLC (per use: unsound maybe_null / unsound is_null), reported in the evidence
     for pid in allp:
         for rec in paths[pid]:
-            for sid, kind in rec["fv"]:
-                fv_events[(pid, sid, kind)] += 1
+            for sid, kind, ctx in rec["fv"]:
+                fv_events[(pid, sid, kind, ctx)] += 1
     # lenient-mode rejections: the property says definitely-unbound names become run-time errors there
     for pid, info in progs.items():
         for e in info.get("lenient_errors", []):
             d = {"config": e["config"], "ev": "compile", "spec": "accepted_by_cpython", "msg_class": e["msg_class"],
                  "binders": "+".join(sorted(ld.binders(info["prog"], e["var"]))) if e["var"] else "none",
-                 "binder_only_in_dead_code": bool(e["var"]) and only_dead_binders(info, e["var"], paths[pid])}
+                 "binders_never_executed": bool(e["var"]) and binders_never_executed(info, e["var"], paths[pid])}
             cls_count["compile_error_lenient"] += 1
             rep.disagree(d, "compile_error_lenient", {"source": "\n".join(ld.render(info["prog"], info["fname"], info["vk"]).lines),
                                                        "error": e["msg"], "line_offset": e["line_offset"], "program": strip(info["prog"])})
@@ -518,16 +543,16 @@ def run(tier, seed, only=None):
         by_off = {off: sid for sid, (off, vn) in r_.use_line.items()}
         for off, msg in errs:
             sid = by_off.get(off)
-            ok = ("referenced before assignment" in msg and sid is not None and info["stmts"][sid]["isn"]
-                  and not any(k[0] == pid and k[1] == sid and k[2] == "isn" for k in fv_events))
-            if ok:
+            # spec side: the use is unbound on every explored path that reaches it
+            bound_somewhere = any(e[0] == sid and e[1] >= 0 for rec in paths[pid] for e in rec["log"]) if sid is not None else True
+            if "referenced before assignment" in msg and sid is not None and not bound_somewhere:
                 n_dflt_ok += 1
             else:
                 cls_count["default_mode_rejects_bindable_use"] += 1
                 rep.disagree({"config": "default", "ev": info["stmts"][sid]["t"] if sid else "other", "spec": "bound_on_some_path",
                               "msg_class": "referenced before assignment" if "referenced before" in msg else "other"},
-                             "default_mode_rejects", {"source": "\n".join(r_.lines), "error": msg, "line_offset": off})
-
+                             "default_mode_rejects", {"source": "\n".join(r_.lines), "error": msg, "line_offset": off,
+                                                      "program": strip(info["prog"])})
     timing["replay"] = time.time() - t0
     # ---- 6. binding demonstration: corrupted expectations must be rejected by the comparison
     demo = {"corrupted": 0, "rejected": 0}
@@ -581,6 +606,8 @@ def run(tier, seed, only=None):
         "samples": samples,
     })
     rc = rep.finish()
+    if only is not None:
+        return rc
     cov["known_findings"] = rep.kf_summary()
     core.write_evidence(PROP, tier, seed, "model_checking", cov, time.time() - t0,
                         assumptions=["default mode and lenient mode generate the same C code for accepted programs (Options.error_on_uninitialized "
@@ -599,31 +626,65 @@ def mods_render(mods, info):
     return ld.render(info["prog"], info["fname"], info["vk"]).lines
 
 
-def only_dead_binders(info, var, recs):
-    """spec-side: no statement that binds `var` is ever executed on any explored path (all binders sit in dead code).
-    Decided from the run phase: a bound value of var would show up ... conservatively from program structure:
-    every binder of var follows a terminator in its own block."""
-    prog = info["prog"]
-    dead_ids = set()
+class ReplayReporter(object):
+    """--replay: same interface as core.Reporter, prints instead of writing replay files (and leaves them alone)"""
 
-    def blk(b, dead):
-        term = False
-        for s in b:
-            d = dead or term
-            if d:
-                dead_ids.add(s["id"])
-            if s["t"] in ld.COMPOUND:
-                blk(s["a"], d)
-                for h in s["hs"]:
-                    blk(h["a"], d)
-                blk(s["b"], d)
-                blk(s["f"], d)
-            if s["t"] in ("ret", "brk", "cnt", "raise"):
-                term = True
-    blk(prog, False)
-    binders = [s for s in ld.walk(prog) if s["v"] == var and s["t"] in ("asg", "wal", "for", "with", "match")]
-    binders += [s for s in ld.walk(prog) for h in s["hs"] if h["v"] == var]
-    return bool(binders) and all(s["id"] in dead_ids for s in binders)
+    def __init__(self):
+        self.kf = core.load_known_findings(PROP)
+        self.n = 0
+        self.drift = []
+
+    def disagree(self, desc, obs_class, detail):
+        d = dict(desc, obs_class=obs_class)
+        known = [k["id"] for k in self.kf if core._match(k["match"], d)]
+        print("DISAGREEMENT%s %s" % (" (known: %s)" % known[0] if known else "", json.dumps(d, sort_keys=True)))
+        print("   word=%s spec=%s compiled=%s" % (detail.get("word"), json.dumps(detail.get("spec [log, outcome]")),
+                                                   json.dumps(detail.get("compiled [log, outcome]") or detail.get("error"))))
+        if not known:
+            self.n += 1
+
+    def spec_drift(self, what, detail=None):
+        self.drift.append((what, detail))
+
+    def finish(self):
+        if self.drift:
+            core.die("spec drift in replay: %s" % json.dumps(self.drift[0], default=str)[:1500])
+        return 1 if self.n else 0
+
+    def n_violations(self):
+        return self.n
+
+    def kf_summary(self):
+        return {}
+
+
+def has_dead_code(prog):
+    def blk(b):
+        for i, s in enumerate(b):
+            if s["t"] in ("ret", "brk", "cnt", "raise") and i + 1 < len(b):
+                return True
+            if s["t"] in ld.COMPOUND and (blk(s["a"]) or blk(s["b"]) or blk(s["f"]) or any(blk(h["a"]) for h in s["hs"])):
+                return True
+            if s["t"] == "try" and s["a"] and s["a"][-1]["t"] in ("ret", "brk", "cnt", "raise") and s["b"]:
+                return True
+        return False
+    return blk(prog)
+
+
+def binders_never_executed(info, var, recs):
+    """spec side (decided by the run phase): on no explored path a statement that binds `var` is executed
+    (all its binders are unreachable, e.g. they follow a return)."""
+    prog = info["prog"]
+    ids = {s["id"] for s in ld.walk(prog) if s["v"] == var and s["t"] in ("asg", "wal", "for", "with", "match")}
+    marks = {s["id"] * 100 + j for s in ld.walk(prog) for j, h in enumerate(s["hs"], 1) if h["v"] == var}
+    if not ids and not marks:
+        return False
+    for rec in recs:
+        if ids & set(rec["bset"]):
+            return False
+        if marks & {e[0] for e in rec["log"]}:
+            return False
+    return True
 
 
 def replay(path, seed):
